@@ -1405,10 +1405,16 @@ def _mp_visit_worker(ready_queue, done_event, callback):
     from queue import Empty
 
     while True:
+        # Sample the flag *before* trying to receive: once it is set, every item
+        # has been flushed to the queue, so a subsequent empty timeout means that
+        # there is really nothing left. Checking it only after the timeout can
+        # miss items enqueued in between.
+        done = done_event.is_set()
+
         try:
             args = ready_queue.get(True, timeout=1)
         except Empty:
-            if done_event.is_set():
+            if done:
                 break
             continue
 
